@@ -383,7 +383,7 @@ def matrix1_rows(tier):
 
 
 # =========================================================================== feature matrix M2 (time-outs)
-M2_PH = ('sleep', 'await', 'await_first', 'ff', 'ff_await_later')
+M2_PH = ('sleep', 'await', 'await_first', 'ff', 'ff_await_later', 'sleep_cleanup')
 M2_SECOND = ('none', 'sync_ret', 'sleep')
 M2_CH = ('ret', 'raise', 'sleep', 'two', 'two_raise_first', 'awaitG', 'ffG', 'awaitG_L')
 M2_GH = ('ret', 'two')
@@ -401,6 +401,8 @@ def matrix2(par, ph, second, ch, gh, T='1/4', timed='P1'):
         'await_first': [['dispawait', 'A', 'C', 'C1'], ['sleep', 'd1'], ['ret', 'p']],
         'ff': [['disp', 'A', 'C', 'C1'], ['sleep', 'd1'], ['ret', 'p']],
         'ff_await_later': [['disp', 'A', 'C', 'C1'], ['sleep', 'd1'], ['await', 'C1'], ['ret', 'p']],
+        # when cancelled (time-out) the handler needs 0.3 s to clean up
+        'sleep_cleanup': [['sleep_cleanup', 'd1', '3/10'], ['ret', 'p']],
     }[ph]
     handlers = [['A', 'P', 'hP', hp]]
     if second == 'sync_ret':
@@ -461,6 +463,8 @@ def matrix2_rows(tier):
         (False, 'await_first', 'sync_ret', 'raise', 'ret'),
         (False, 'await', 'none', 'awaitG_L', 'ret'),
         (False, 'await_first', 'sync_ret', 'awaitG_L', 'ret'),
+        (False, 'sleep_cleanup', 'sync_ret', 'ret', 'ret'),
+        (False, 'sleep_cleanup', 'sleep', 'ret', 'ret'),
     ]
     rows = pairwise(doms, must)
     # gh only matters with grandchildren
